@@ -36,6 +36,18 @@ call must not read `self` anywhere else (evaluation order), otherwise the method
     not translated: `ext x`, a computation on the statement stream processor.  That this is all an untranslated visitor can do is CHECKED:
     no method of `_ParseTreeProcessor` outside the table may assign an attribute of the visitor or call a state-changing translated method.
 
+Robustness against refactorings (none of it guesses: whatever is not understood is still refused):
+  * private helper methods are found through the call graph (`self._helper(…)` in a translated method), translated like any other
+    method, emitted callees first and tagged `@[py_helper]`; the bridge unfolds that simp set wherever it unfolds a method, so
+    extracting / inlining / renaming a helper yields the same proof obligations;
+  * a parameter `Callable[[], None]` is a computation on the object (`lambda: …` is bound as a `do` block and run where the callee
+    calls it), `Callable[[C], None]` with `C` a translated class one on an object of that class (`lambda x: x.m(…)`, run through
+    `zoom` on the attribute the callee passes); a closure may capture only locals that are never re-assigned;
+  * a property whose body is `return self._x` (type assertions aside) is read as the attribute itself when called on `self`, so
+    it may stand anywhere in an `and` / `or`; `[*a, *b]` is `a ++ b`;
+  * a private attribute that is the only attribute of its type in its class gets a fixed Lean name (table `CANONICAL_FIELDS`),
+    whatever its Python name; locals never reach a statement of the bridge.
+
 Not translated (they reach the generated code only through `ext` / `Env`): `DataTypeBuilder.finalize` / `_make_composite`,
 `resolve_top_level_identifier`, `resolve_versioned_data_type`, `DataSchemaBuilder.offset`, the expression and type visitors of
 `_ParseTreeProcessor`, `_parse_string_literal`, the attribute constructors of `_serializable/_attribute.py`.
@@ -68,7 +80,13 @@ FILES = {
 TPARAMS = "P T V A L H"
 
 
-def lean_ty(t: str) -> str:
+def lean_ty(t: str, state_ty: typing.Optional[str] = None) -> str:
+    if t == "act":  # a zero-argument callable that is called for its effect on the object: a computation on the state of the class
+        if state_ty is None:
+            raise Untranslatable("a callable outside a method")
+        return "Py.SM %s (Exc P) Unit" % paren(state_ty)
+    if t.startswith("act:"):  # a callable that is given an object of a translated class: a computation on the state of that class
+        return "Py.SM %s (Exc P) Unit" % paren(CLASSES[t[4:]]["state_ty"])
     if t.startswith("opt:"):
         return "Option " + paren(lean_ty(t[4:]))
     if t.startswith("list:"):
@@ -130,6 +148,14 @@ CLASSES: typing.Dict[str, dict] = {
                     "_visit_literal_string", "visit_literal_string_single_quoted", "visit_literal_string_double_quoted"],
     },
 }
+# A private attribute that is the ONLY attribute of its type in its class gets a fixed Lean name, whatever it is called in Python
+# (a label only: what the attribute means is proved by the bridge, never assumed).  With two attributes of that type the Python
+# names are used.
+CANONICAL_FIELDS = {
+    "_ParseTreeProcessor": {"str": "comment", "obj:DataTypeBuilder": "statement_stream_processor"},
+    "DataSchemaBuilder": {"str": "doc", "opt:mode": "serialization_mode"},
+    "Error": {"opt:P": "path", "opt:int": "line"},
+}
 INTERFACES = {"StatementStreamProcessor": "DataTypeBuilder"}  # the interface type of an attribute -> the class that implements it
 MODE_BASE = "SerializationMode"
 SIGNED = {("DelimitedSerializationMode", "extent")}  # ints that may be negative
@@ -151,6 +177,8 @@ ANNOTATIONS = {
     "typing.Optional[Path]": "opt:P", "typing.Optional[int]": "opt:int",
     "_serializable.SerializableType": "T", "_serializable.VoidType": "T",
     "_expression.Any": "V", "_expression.Any | None": "opt:V", "_expression.String": "V",
+    "typing.Optional[_expression.Any]": "opt:V", "Optional[_expression.Any]": "opt:V",
+    "typing.Callable[[], None]": "act", "Callable[[], None]": "act",
     "_serializable.Field": "A", "_serializable.Constant": "A",
     "List[_serializable.Field]": "list:A", "List[_serializable.Constant]": "list:A", "List[_serializable.Attribute]": "list:A",
     "Callable[[str], None]": "cb", "Callable[[str], None] | None": "opt:cb",
@@ -167,7 +195,19 @@ def ann_type(a: typing.Optional[ast.AST]) -> str:
     s = ast.unparse(a)
     if s in ANNOTATIONS:
         return ANNOTATIONS[s]
+    # Callable[[C], None] with C a translated class (or the interface it implements): a computation on an object of that class
+    if isinstance(a, ast.Subscript) and ast.unparse(a.value) in ("typing.Callable", "Callable") and isinstance(a.slice, ast.Tuple) \
+            and len(a.slice.elts) == 2 and isinstance(a.slice.elts[0], ast.List) and len(a.slice.elts[0].elts) == 1 \
+            and isinstance(a.slice.elts[1], ast.Constant) and a.slice.elts[1].value is None:
+        c = ast.unparse(a.slice.elts[0].elts[0]).strip("'\"")
+        c = INTERFACES.get(c, c)
+        if c in CLASSES:
+            return "act:" + c
     raise Untranslatable("annotation %s" % s)
+
+
+def is_act(t: typing.Optional[str]) -> bool:
+    return t is not None and (t == "act" or t.startswith("act:"))
 
 
 def is_name(n: ast.AST, name: str) -> bool:
@@ -354,6 +394,15 @@ class ClassInfo:
             missing = [k for k in table if k not in self.fields]
             if missing:
                 raise Untranslatable("__init__ does not assign %s" % missing)
+        else:
+            canon = CANONICAL_FIELDS.get(self.name, {})
+            for t, cname in canon.items():
+                attrs = [a for a, (_, ft) in self.fields.items() if ft == t]
+                if len(attrs) == 1 and attrs[0].startswith("_") and cname not in [lf for a, (lf, _) in self.fields.items() if a != attrs[0]]:
+                    old = self.fields[attrs[0]][0]
+                    self.fields[attrs[0]] = (cname, t)
+                    if old != cname:
+                        self.init_values[cname] = self.init_values.pop(old)
         self.init_params = used_params
 
     @staticmethod
@@ -374,6 +423,55 @@ class ClassInfo:
 
     def field(self, path: str) -> typing.Optional[typing.Tuple[str, str]]:
         return self.fields.get(path)
+
+    def discover_helpers(self) -> None:
+        """Private methods that the translated methods call on `self` (directly or through other helpers) are translated too:
+        they are found through the call graph, not by name."""
+        self.helpers: typing.List[str] = []
+        todo = list(self.spec["methods"])
+        seen = set(todo)
+        while todo:
+            m = todo.pop()
+            f = self.fns.get(m)
+            if f is None:
+                continue
+            for n in ast.walk(f):
+                if isinstance(n, ast.Attribute) and is_name(n.value, "self") and n.attr in self.fns and n.attr not in seen \
+                        and n.attr.startswith("_") and not n.attr.startswith("__"):
+                    seen.add(n.attr)
+                    self.helpers.append(n.attr)
+                    todo.append(n.attr)
+
+    def translated(self) -> typing.List[str]:
+        return list(self.spec["methods"]) + list(getattr(self, "helpers", []))
+
+    def ordered_methods(self) -> typing.List[str]:
+        """the translated methods, callees first (the order of the table, then source order, breaks ties)"""
+        names = [m for m in self.translated() if m in self.fns]
+        deps: typing.Dict[str, typing.Set[str]] = {}
+        for m in names:
+            deps[m] = {n.attr for n in ast.walk(self.fns[m]) if isinstance(n, ast.Attribute) and is_name(n.value, "self")
+                       and n.attr in names and n.attr != m}
+        out: typing.List[str] = []
+        while len(out) < len(names):
+            ready = [m for m in names if m not in out and deps[m] <= set(out)]
+            if not ready:
+                out += [m for m in names if m not in out]  # a cycle: Lean will refuse the forward reference
+                break
+            out.append(ready[0])
+        return out + [m for m in self.translated() if m not in self.fns]
+
+    def trivial_property(self, m: str) -> typing.Optional[str]:
+        """the attribute a property returns when its body is `return self._x` (type assertions aside): reading it cannot raise"""
+        f = self.fns.get(m)
+        if f is None or not self.is_property(m):
+            return None
+        body = [s for s in f.body if not (isinstance(s, ast.Expr) and isinstance(s.value, ast.Constant))
+                and not (isinstance(s, ast.Assert) and all(is_type_assertion(c) for c in conjuncts(s.test)))]
+        if len(body) == 1 and isinstance(body[0], ast.Return) and isinstance(body[0].value, ast.Attribute) \
+                and is_name(body[0].value.value, "self") and body[0].value.attr in self.fields:
+            return body[0].value.attr
+        return None
 
     def is_property(self, m: str) -> bool:
         return any(is_name(d, "property") for d in self.fns[m].decorator_list)
@@ -403,6 +501,18 @@ class World:
     def __init__(self, src: Sources):
         self.src = src
         self.classes: typing.Dict[str, ClassInfo] = {c: ClassInfo(src, c) for c in CLASSES}
+        for ci0 in self.classes.values():
+            ci0.discover_helpers()
+        # parameters that are zero-argument callables: calling one is a computation on the object
+        self.act_params: typing.Set[str] = set()
+        for ci0 in self.classes.values():
+            for f0 in ci0.fns.values():
+                for a0 in f0.args.args:
+                    try:
+                        if a0.annotation is not None and is_act(ann_type(a0.annotation)):
+                            self.act_params.add(a0.arg)
+                    except Untranslatable:
+                        pass
         self.modes: typing.Dict[str, typing.List[typing.Tuple[str, str]]] = {}  # mode class -> constructor fields
         self.mode_problem: typing.Optional[str] = None
         try:
@@ -469,6 +579,8 @@ class World:
 
     def is_state_changing_call(self, n: ast.Call) -> bool:
         f = n.func
+        if isinstance(f, ast.Name) and f.id in self.act_params:
+            return True
         if isinstance(f, ast.Attribute):
             if f.attr in ("append", "extend"):
                 return True
@@ -568,7 +680,7 @@ class MTr:
 
     def call_method(self, rc: typing.Tuple[str, ClassInfo, str], m: str, args: typing.List[ast.AST], kws: typing.List[ast.keyword]) -> typing.Tuple[str, str]:
         kind, ci, lf = rc
-        if m not in ci.fns or m not in ci.spec["methods"]:
+        if m not in ci.fns or m not in ci.translated():
             raise Untranslatable("%s.%s is not a translated method" % (ci.name, m))
         params, ret = self.signature(ci, m)
         vals: typing.List[typing.Optional[str]] = [None] * len(params)
@@ -628,6 +740,22 @@ class MTr:
             return self.attribute(n)
         if isinstance(n, ast.List) and not n.elts:
             return "[]", "emptylist"
+        if isinstance(n, ast.List) and any(isinstance(x, ast.Starred) for x in n.elts):
+            parts: typing.List[str] = []
+            lt: typing.Optional[str] = want if want and want.startswith("list:") else None
+            for x in n.elts:
+                if isinstance(x, ast.Starred):
+                    v, t = self.e(x.value, lt)
+                    if not t.startswith("list:") or (lt is not None and t != lt):
+                        raise Untranslatable("starred %s in a list display" % t)
+                    lt = t
+                    parts.append(v)
+                else:
+                    if lt is None:
+                        raise Untranslatable("list display whose element type is not known at its first element")
+                    parts.append("[%s]" % self.coerce(*self.e(x, lt[5:]), lt[5:]))
+            assert lt is not None
+            return "(" + " ++ ".join(parts) + ")", lt
         if isinstance(n, ast.List) and want and want.startswith("list:"):
             vals = [self.coerce(*self.e(x, want[5:]), want[5:]) for x in n.elts]
             return "[" + ", ".join(vals) + "]", want
@@ -689,6 +817,11 @@ class MTr:
         if rc is not None:
             kind, ci, lf = rc
             if n.attr in ci.fns and ci.is_property(n.attr):
+                triv = ci.trivial_property(n.attr)
+                if kind == "self" and triv is not None and n.attr in ci.translated():
+                    f = ci.field(triv)
+                    assert f is not None
+                    return self.field_read(f[0]), f[1]  # `return self._x`: the read itself
                 return self.call_method(rc, n.attr, [], [])
         raise Untranslatable("attribute %s" % ast.unparse(n))
 
@@ -741,6 +874,23 @@ class MTr:
                 return self.isinstance_(n.args[0], n.args[1])
             if f.id in self.callables and f.id not in self.types:
                 return self.call_method(("self", self.ci, ""), self.callables[f.id], n.args, n.keywords)
+            if self.types.get(f.id) == "act" and not n.args and not n.keywords:
+                self.pre.append(lname(f.id))
+                return "()", "none"
+            if (self.types.get(f.id) or "").startswith("act:") and len(n.args) == 1 and not n.keywords:
+                rc = self.receiver(n.args[0])
+                if rc is None or rc[1].name != self.types[f.id][4:]:
+                    raise Untranslatable("argument of the callable %s" % f.id)
+                kind, _, lf = rc
+                if kind == "self":
+                    self.pre.append(lname(f.id))
+                elif kind == "field":
+                    self.pre.append("%s (%s)" % (ZOOM_FIELD % (lf, lf), lname(f.id)))
+                elif kind == "last":
+                    self.pre.append("%s (%s)" % (ZOOM_LAST % (lf, lf), lname(f.id)))
+                else:
+                    raise Untranslatable("argument of the callable %s" % f.id)
+                return "()", "none"
             if f.id == "_parse_string_literal" and len(n.args) == 1 and not n.keywords and self.ci.name == "_ParseTreeProcessor":
                 a, ta = self.e(n.args[0])
                 if ta == "str":
@@ -845,6 +995,46 @@ class MTr:
         return ("(%s %s)" % (ci.lean_name("__init__"), " ".join(paren(vals[pn]) for pn, _ in params))).replace(" )", ")"), "obj:" + ci.name
 
     def lambda_(self, n: ast.Lambda, want: typing.Optional[str]) -> typing.Tuple[str, str]:
+        if want == "act":
+            a = n.args
+            if a.args or a.vararg or a.kwarg or a.kwonlyargs or a.posonlyargs:
+                raise Untranslatable("closure with parameters where a zero-argument callable is expected")
+            # the body runs when the closure is CALLED: it becomes a computation that is bound here and run by the callee.
+            # It may only capture locals that are never re-assigned (checked: `mut` locals are refused).
+            for x in ast.walk(n.body):
+                if isinstance(x, ast.Name) and x.id in self.mut:
+                    raise Untranslatable("closure captures the re-assigned local %s" % x.id)
+            saved_pre, saved_used = self.pre, self.used_self
+            self.pre, self.used_self = [], False
+            lines: typing.List[str] = []
+            self.stmt(ast.Expr(value=n.body), "    ", lines)
+            self.pre, self.used_self = saved_pre, saved_used
+            name = "act%d" % (self.tmp + 1)
+            self.tmp += 1
+            self.pre.append("let %s : %s := (do" % (name, lean_ty("act", self.ci.state_ty)))
+            self.pre += (lines or ["    pure ()"])
+            self.pre[-1] += ")"
+            return name, "act"
+        if want is not None and want.startswith("act:"):
+            a = n.args
+            if len(a.args) != 1 or a.vararg or a.kwarg or a.kwonlyargs or a.posonlyargs or a.defaults:
+                raise Untranslatable("closure that does not take exactly the object")
+            for x in ast.walk(n.body):
+                if isinstance(x, ast.Name) and (x.id in self.mut or x.id == self.selfname or x.id in self.aliases):
+                    raise Untranslatable("closure on another object captures %s" % x.id)
+            sub = MTr(self.w, self.w.classes[want[4:]], self.method, selfname=a.args[0].arg)
+            sub.types = {k: v for k, v in self.types.items() if k != a.args[0].arg}
+            sub.declared = set(sub.types)
+            sub.node_param = self.node_param
+            sub.tmp = self.tmp + 100
+            lines2: typing.List[str] = []
+            sub.stmt(ast.Expr(value=n.body), "    ", lines2)
+            name = "act%d" % (self.tmp + 1)
+            self.tmp += 1
+            self.pre.append("let %s : %s := (do" % (name, lean_ty(want)))
+            self.pre += (lines2 or ["    pure ()"])
+            self.pre[-1] += ")"
+            return name, want
         if want != "cb":
             raise Untranslatable("lambda where %s is expected" % want)
         for (ctor, captured, node, _m) in self.w.lambdas:
@@ -1222,8 +1412,8 @@ ENV_ARG = "(env : Env P T V A H)"
 EXT_TY = "(ext : X → Py.SM (BuilderS P T V A L H) (Exc P) Unit)"
 
 
-def binders(ps: typing.List[typing.Tuple[str, str]]) -> str:
-    return " ".join("(%s : %s)" % (n, lean_ty(t)) for n, t in ps)
+def binders(ps: typing.List[typing.Tuple[str, str]], state_ty: typing.Optional[str] = None) -> str:
+    return " ".join("(%s : %s)" % (n, lean_ty(t, state_ty)) for n, t in ps)
 
 
 def def_header(w: World, ci: ClassInfo, m: str, sig: Sig) -> str:
@@ -1231,7 +1421,7 @@ def def_header(w: World, ci: ClassInfo, m: str, sig: Sig) -> str:
     if ci.env:
         parts.append(ENV_ARG)
     if sig.lean_params:
-        parts.append(binders(sig.lean_params))
+        parts.append(binders(sig.lean_params, ci.state_ty))
     return "%s : Py.SM %s (Exc P) %s :=" % (" ".join(parts), paren(ci.state_ty), paren(lean_ty(sig.ret)))
 
 
@@ -1303,7 +1493,7 @@ def translate_init(w: World, ci: ClassInfo) -> typing.List[str]:
 
 
 def collect_lambdas(w: World, ci: ClassInfo) -> None:
-    for m in ci.spec["methods"]:
+    for m in ci.translated():
         f = ci.fns.get(m)
         if f is None:
             continue
@@ -1313,7 +1503,7 @@ def collect_lambdas(w: World, ci: ClassInfo) -> None:
             continue
         k = 0
         for n in ast.walk(f):
-            if isinstance(n, ast.Lambda):
+            if isinstance(n, ast.Lambda) and n.args.args:  # closures without parameters are computations, see MTr.lambda_
                 ptypes = {pn: pt for pn, pt, _ in sig.params}
                 free = []
                 for x in ast.walk(n.body):
@@ -1407,7 +1597,7 @@ def frame_check(w: World, ci: ClassInfo) -> typing.List[str]:
     """no untranslated method of the visitor class assigns one of its attributes or calls a state-changing translated method"""
     probs = []
     for m, f in ci.fns.items():
-        if m in ci.spec["methods"] or m == "__init__":
+        if m in ci.translated() or m == "__init__":
             continue
         for n in ast.walk(f):
             tgts: typing.List[ast.AST] = []
@@ -1420,14 +1610,14 @@ def frame_check(w: World, ci: ClassInfo) -> typing.List[str]:
                 if isinstance(base, ast.Attribute) and is_name(base.value, "self"):
                     probs.append("%s.%s (not translated) assigns self.%s" % (ci.name, m, base.attr))
             if isinstance(n, ast.Call) and isinstance(n.func, ast.Attribute) and is_name(n.func.value, "self") \
-                    and n.func.attr in ci.spec["methods"] and n.func.attr in w.mutating_names:
+                    and n.func.attr in ci.translated() and n.func.attr in w.mutating_names:
                 probs.append("%s.%s (not translated) calls self.%s" % (ci.name, m, n.func.attr))
             if isinstance(n, ast.Call) and any(is_name(a, "self") for a in n.args):
                 probs.append("%s.%s (not translated) passes self to %s" % (ci.name, m, ast.unparse(n.func)))
     # a class-level alias `visit_x = visit_y` of a translated state-changing method would be an event the dispatcher does not know
     assert ci.node is not None
     for s in ci.node.body:
-        if isinstance(s, ast.Assign) and isinstance(s.value, ast.Name) and s.value.id in ci.spec["methods"]:
+        if isinstance(s, ast.Assign) and isinstance(s.value, ast.Name) and s.value.id in ci.translated():
             probs.append("%s: class-level alias of the translated method %s" % (ci.name, s.value.id))
     return probs
 
@@ -1549,14 +1739,14 @@ def translate_reader(repo: Path) -> typing.Tuple[str, typing.List[str]]:
             out += ["def %s : %s := untranslatable_constructor" % (ci.lean_name("__init__"), ci.state_ty), ""]
         if cname == "DataTypeBuilder":
             out += cb_call + [""]
-        for m in ci.spec["methods"]:
+        for m in ci.ordered_methods():
             try:
                 if m not in ci.fns:
                     raise Untranslatable("not found")
-                if cname != "Error" and not err_ok:
-                    pass
                 body = translate_method(w, ci, m)
                 out.append("/- %s.%s  %s -/" % (cname, m, src.span(ci.mod, ci.fns[m])))
+                if m in ci.helpers:  # found through the call graph: the bridge unfolds it wherever it is called
+                    body[0] = "@[py_helper] " + body[0]
                 ok_methods.add(m)
             except Untranslatable as ex:
                 problems.append("%s %s.%s: %s" % (FILES[ci.mod], cname, m, ex))
